@@ -83,7 +83,24 @@ def run(ctx):
                 continue
             src = bytes.fromhex(e["file"])
             stats["sources"] += 1
-            version = ctx.rnd.choice([4712, 4713])
+            odd = None
+            if i % 4 == 3:
+                # a version number the reader only warns about, patched into every lead-in (the copy is written with the requested /
+                # default version); the model only knows 4712 / 4713, so these sources are checked by the oracle alone
+                odd = ctx.rnd.choice([4714, 4711, 1, 2 ** 31 - 1])
+                try:
+                    with T.open(io.BytesIO(src)) as fo:
+                        pos = [sg.position for sg in fo._reader._segments]
+                    b = bytearray(src)
+                    for sg, q in zip(segs, pos):
+                        b[q + 8:q + 12] = struct.pack(">I" if sg["big"] else "<I", odd)
+                    src = bytes(b)
+                    stats["odd_source_version"] = stats.get("odd_source_version", 0) + 1
+                except Exception:
+                    odd = None
+            version = ctx.rnd.choice([4712, 4713, None])        # None: the argument is left out (documented default 4712)
+            vkw = {} if version is None else dict(version=version)
+            version = 4712 if version is None else version
             by_path, with_index = i % 4 == 1, i % 2 == 0
             in_place = by_path and i % 8 == 1        # destination path = source path: the copy replaces the file it was made from
             try:
@@ -95,13 +112,13 @@ def run(ctx):
                         if os.path.exists(q):
                             os.unlink(q)
                     open(sp, "wb").write(src)
-                    W.defragment(sp, dp, version=version, index_file=with_index)
+                    W.defragment(sp, dp, index_file=with_index, **vkw)
                     dst = open(dp, "rb").read()
                     idx = open(dp + "_index", "rb").read() if with_index else None
                     stats["by_path"] += 1
                 else:
                     d, ix = io.BytesIO(), io.BytesIO()
-                    W.defragment(io.BytesIO(src), d, version=version, index_file=ix if with_index else False)
+                    W.defragment(io.BytesIO(src), d, index_file=ix if with_index else False, **vkw)
                     dst, idx = d.getvalue(), ix.getvalue() if with_index else None
             except Exception as ex:  # noqa
                 violations.append(Violation("defragment raised %s: %s" % (type(ex).__name__, str(ex)[:150]), dict(kind="defrag", source=src.hex(), encoding=gen_files.to_line(segs))))
@@ -109,7 +126,7 @@ def run(ctx):
                     break
                 continue
             stats["with_index"] += with_index
-            m = model.ask("defrag %s %d" % (hx(src), version))
+            m = model.ask("defrag %s %d" % (hx(src), version)) if odd is None else dict(ok=True, data=dst.hex(), index=None if idx is None else idx.hex())
             if not m.get("ok"):
                 disagreements.append(dict(what="model defragment fails where the real one succeeds", source=src.hex()))
             elif bytes.fromhex(m["data"]) != dst:
